@@ -530,27 +530,30 @@ def materialise(v: Any) -> Any:
     return v
 
 
-def invalid_values(kind: Kind) -> dict[str, Any]:
-    """one invalid spelling per source (absent key: every spelling of that source is valid / no spelling exists)"""
+def invalid_values(kind: Kind) -> dict[str, list[Any]]:
+    """invalid spellings per source (absent key: every spelling of that source is valid / no spelling exists).
+    file: a malformed string and a value of the wrong TOML type"""
     n = kind.name
     if n == "bool":
-        return {"env": "maybe", "file": "maybe"}
-    if n in ("int", "autoint", "hexint", "float"):
-        return {"cli": ["zz"], "env": "zz", "file": "zz"}
+        return {"env": ["maybe"], "file": ["maybe", [1]]}
+    if n in ("int", "autoint", "hexint"):
+        return {"cli": [["zz"]], "env": ["zz"], "file": ["zz", 1.5]}
+    if n == "float":
+        return {"cli": [["zz"]], "env": ["zz"], "file": ["zz", [1]]}
     if n in ("str", "path"):
-        return {"file": [1, 2]}
+        return {"file": [[1, 2]]}
     if n == "hexbytes":
-        return {"cli": ["xyz"], "env": "xyz", "file": "xyz"}
+        return {"cli": [["xyz"]], "env": ["xyz"], "file": ["xyz", 5]}
     if n == "uri":
-        return {}
+        return {"file": [5]}
     if n in ("enum", "literal"):
-        return {"cli": ["__nope__"], "env": "__nope__", "file": "__nope__"}
+        return {"cli": [["__nope__"]], "env": ["__nope__"], "file": ["__nope__", 1.5]}
     if n == "ranges":
-        return {"cli": ["a-b"], "env": "a-b", "file": "a-b"}
+        return {"cli": [["a-b"]], "env": ["a-b"], "file": ["a-b", 1.5]}
     if n == "ranges2d":
-        return {"cli": ["x:y"], "env": "x:y", "file": "x:y"}
+        return {"cli": [["x:y"]], "env": ["x:y"], "file": ["x:y", 1.5]}
     if n == "list":
-        return {"cli": ["zz"], "env": "zz", "file": ["zz"]}
+        return {"cli": [["zz"]], "env": ["zz"], "file": [["zz"]]}
     return {}
 
 
